@@ -408,6 +408,8 @@ def rule_xport(m):
                 else:
                     idxs = [_get_index(f, adds[0]['args'][k]) for k in range(min(3, len(a)))]
                     want = [0, 1, 2]
+                if cls in (LUG, UMG, UWG) and idxs[:2] == [1, 0] and idxs[2:] == want[2:]:
+                    idxs = want      # the insertion of an undirected class is symmetric in its two endpoints
                 if idxs != want:
                     why = 'the tuple components are not passed to %s in order (got %s)' % (adder, idxs)
                 elif tt.t(adds[0]['obj']) != ('this',):
